@@ -17,9 +17,11 @@ def _same(e, g):
 
 
 def _strip(calls, rec):
-    """agents deleted or created *during* a step may or may not handle/act in that very step:
-    the property speaks of live agents, so their entries are not compared"""
-    skip = set(rec.get("gone", ())) | set(rec.get("born", ()))
+    """an agent deleted *during* a step may or may not handle/act in that very step (it is not live for the whole step), so
+    its entries are not compared.  An agent created during the step by begin_round or by another agent's act() IS live from
+    then on and is the last in creation order: the loop over the live agents reaches it, so its entries are compared
+    (Abm.tla StepF lets it handle and act in the step of its creation)."""
+    skip = set(rec.get("gone", ()))
     if not skip:
         return list(calls)
     return [c for c in calls if not (c[0] in "ha" and c[1:].isdigit() and int(c[1:]) in skip)]
